@@ -525,23 +525,44 @@ Proof.
   - apply memo_sound_filter; auto.
 Qed.
 
-(* the dependency hypothesis for one write: every node of the knowledge base that survives the
-   reset (its snapshot does not contain the assigned variable's snapshot) keeps its from-scratch value *)
-Definition write_ok (x : var) (fx fx' : facts) : Prop :=
-  (forall e, NE e -> pure_expr e = true -> containsb (expr_snapshot e) (var_snapshot x) = false ->
-             fresh_expr fx' e = fresh_expr fx e) /\
-  (forall a, NA a -> pure_atom a = true -> containsb (atom_snapshot a) (var_snapshot x) = false ->
-             fresh_atom fx' a = fresh_atom fx a).
+(* the dependency hypothesis for one write: every node of the knowledge base that survives the reset - its snapshot
+   contains the snapshot of none of the reset variables - keeps its from-scratch value *)
+Definition survives_e (xs : list var) (e : expr) : Prop := forall v, In v xs -> containsb (expr_snapshot e) (var_snapshot v) = false.
+Definition survives_a (xs : list var) (a : atom) : Prop := forall v, In v xs -> containsb (atom_snapshot a) (var_snapshot v) = false.
+Definition write_ok (xs : list var) (fx fx' : facts) : Prop :=
+  (forall e, NE e -> pure_expr e = true -> survives_e xs e -> fresh_expr fx' e = fresh_expr fx e) /\
+  (forall a, NA a -> pure_atom a = true -> survives_a xs a -> fresh_atom fx' a = fresh_atom fx a).
 
-Lemma reset_variable_sound : forall s x fx',
-  memo_sound s -> write_ok x (es_facts s) fx' -> memo_sound (reset_variable (with_facts s fx') x).
+Lemma reset_variables_facts : forall xs s, es_facts (reset_variables s xs) = es_facts s.
+Proof. induction xs as [|x xs IH]; intros s; simpl; auto. unfold reset_variables in *. simpl. rewrite IH. reflexivity. Qed.
+Lemma reset_variables_fx : forall xs s, es_fx (reset_variables s xs) = es_fx s.
+Proof. induction xs as [|x xs IH]; intros s; simpl; auto. unfold reset_variables in *. simpl. rewrite IH. reflexivity. Qed.
+Lemma reset_variables_mexpr : forall xs s e v, In (e, v) (es_mexpr (reset_variables s xs)) ->
+  In (e, v) (es_mexpr s) /\ survives_e xs e.
 Proof.
-  intros s x fx' (He & Ha & Hk) [We Wa]. unfold reset_variable. split; [|split]; simpl.
-  - intros e v Hin Hp. apply filter_In in Hin. destruct Hin as [Hin Hs]. simpl in Hs. apply negb_true_iff in Hs.
+  induction xs as [|x xs IH]; intros s e v H; unfold reset_variables in *; simpl in *.
+  - split; [exact H|]. intros w [].
+  - apply IH in H. destruct H as [H1 H2]. simpl in H1. apply filter_In in H1. destruct H1 as [H1 Hx]. simpl in Hx.
+    split; [exact H1|]. intros w [<-|Hw]; [apply negb_true_iff in Hx; exact Hx|apply H2; exact Hw].
+Qed.
+Lemma reset_variables_matom : forall xs s a v, In (a, v) (es_matom (reset_variables s xs)) ->
+  In (a, v) (es_matom s) /\ survives_a xs a.
+Proof.
+  induction xs as [|x xs IH]; intros s a v H; unfold reset_variables in *; simpl in *.
+  - split; [exact H|]. intros w [].
+  - apply IH in H. destruct H as [H1 H2]. simpl in H1. apply filter_In in H1. destruct H1 as [H1 Hx]. simpl in Hx.
+    split; [exact H1|]. intros w [<-|Hw]; [apply negb_true_iff in Hx; exact Hx|apply H2; exact Hw].
+Qed.
+
+Lemma reset_variables_sound : forall s xs fx',
+  memo_sound s -> write_ok xs (es_facts s) fx' -> memo_sound (reset_variables (with_facts s fx') xs).
+Proof.
+  intros s xs fx' (He & Ha & Hk) [We Wa]. split; [|split]; rewrite ?reset_variables_facts; simpl.
+  - intros e v Hin Hp. apply reset_variables_mexpr in Hin. destruct Hin as [Hin Hs]. simpl in Hin.
     destruct (He e v Hin Hp) as [Hn Hf]. split; auto. rewrite We; auto.
-  - intros a v Hin Hp. apply filter_In in Hin. destruct Hin as [Hin Hs]. simpl in Hs. apply negb_true_iff in Hs.
+  - intros a v Hin Hp. apply reset_variables_matom in Hin. destruct Hin as [Hin Hs]. simpl in Hin.
     destruct (Ha a v Hin Hp) as [Hn Hf]. split; auto. rewrite Wa; auto.
-  - intros a v Hin. apply filter_In in Hin. destruct Hin. eauto.
+  - intros a v Hin. apply reset_variables_matom in Hin. destruct Hin as [Hin _]. simpl in Hin. eauto.
 Qed.
 
 Lemma assign_target_agrees : forall x s r s',
@@ -572,7 +593,7 @@ Qed.
 
 (* dependency hypothesis of the knowledge base: every successful assignment respects the reads of the surviving nodes *)
 Hypothesis writes_respect_reads : forall x fx t nv fx',
-  NV x -> pure_var x = true -> fresh_target fx x = Ok t -> write_target fx t nv = Ok fx' -> write_ok x fx fx'.
+  NV x -> pure_var x = true -> fresh_target fx x = Ok t -> write_target fx t nv = Ok fx' -> write_ok (reset_set allvars x) fx fx'.
 
 Lemma assign_var_sim : forall x nv s r s',
   pure_var x = true -> NV x -> memo_sound s -> assign_var x nv s = (r, s') ->
@@ -592,8 +613,8 @@ Proof.
   destruct rt as [t| |].
   - rewrite Hf1 in H.
     destruct (write_target (es_facts s) t nv) as [fx'| |] eqn:Ew; inversion H; subst r s'.
-    + split; [|split; [simpl; auto|split; [reflexivity|reflexivity]]].
-      apply reset_variable_sound; auto. rewrite Hf1. eapply writes_respect_reads; eauto.
+    + unfold reset_assigned. split; [|split; [rewrite reset_variables_fx; simpl; auto|split; [reflexivity|rewrite reset_variables_facts; reflexivity]]].
+      apply reset_variables_sound; auto. rewrite Hf1. eapply writes_respect_reads; eauto.
     + split; [assumption|split; [assumption|split; [discriminate|assumption]]].
     + split; [assumption|split; [assumption|split; [discriminate|assumption]]].
   - inversion H; subst r s'. split; [assumption|split; [assumption|split; [discriminate|assumption]]].
